@@ -215,6 +215,32 @@ fn check_case(c: &Case, rec: &mut Recorder) -> Result<(), (String, J)> {
             }
             rec.count(if k > 0 { Some(hash_bytes(&[&c.bytes, c.to.name().as_bytes(), b"w", &(k as u64).to_le_bytes()])) } else { None });
             rec.class("fault:writer");
+            // the same fault with slice input, and a writer that has no room left
+            // (answers Ok(0), as a full fixed-size buffer does) for both supplies
+            for (kind, slice_input, full) in [("writer_slice_input", true, false), ("writer_full", false, true), ("writer_full_slice_input", true, true)] {
+                let mut w = if full { FaultWriter::full_after(k) } else { FaultWriter::new(Some(k), None) };
+                let verdict = if slice_input {
+                    guarded(|| xt::translate_slice(&c.bytes, from.map(Fmt::xt), c.to.xt(), &mut w))
+                } else {
+                    guarded(|| xt::translate_reader(SchedReader::new(&c.bytes, c.sched.clone()), from.map(Fmt::xt), c.to.xt(), &mut w))
+                };
+                let cj = || case_json(c, json!({"fault": kind, "k": k}));
+                match &verdict {
+                    Verdict::Panic(p) => return Err((format!("{} at byte {}: panic: {}", kind, k, p), cj())),
+                    Verdict::Ok => {
+                        // slice and reader supply may legitimately disagree on this input (C02's known classes)
+                        if slice_input && crate::checks::c02::diff_supply(&c.bytes, from, c.to, &c.sched, "C02").map_or(false, |(k, _, _)| k.is_some()) {
+                            continue;
+                        }
+                        return Err((format!("{} at byte {} of {}: the translation reported success although the writer took only {} bytes", kind, k, m, w.accepted.len()), cj()));
+                    }
+                    Verdict::Err(_) => {}
+                }
+                if !slice_input && !is_prefix(&w.accepted, &clean.out) {
+                    return Err((format!("{} at byte {}: the accepted bytes {:?} are not a prefix of the fault-free output {:?}", kind, k, brief_bytes(&w.accepted), brief_bytes(&clean.out)), cj()));
+                }
+                rec.class(&format!("fault:{}", kind));
+            }
         }
         // --- short writes never failing
         for chunks in [vec![1usize], c.chunks.clone()] {
@@ -300,7 +326,7 @@ impl Check for C12 {
         "fault_enumeration"
     }
     fn rule(&self) -> String {
-        "For generated valid streams (1..4 documents of each format, YAML also re-encoded as UTF-16/32; source named or detected; every target; a drawn read schedule): (a) a reader that fails - and keeps failing - once k bytes were delivered, for EVERY k in 0..=|input| (257 spread values above 2 KiB): the result must be Err whose text contains INJECTED-R-k (or the input's own fault-free error when that strikes first), never Ok or a panic, and the complete documents in the partial output (lines for JSON, '---'-introduced documents for YAML, whole values for MessagePack, all-or-nothing for TOML) must be, in order, a prefix of the fault-free documents; (b) a writer that accepts exactly k bytes and then fails, for EVERY k below the fault-free output length (256 spread values above 1 KiB): Err, and the accepted bytes are a prefix of the fault-free output; (a') a reader of which ONE read fails with ErrorKind::Interrupted after k bytes and which then works again, for every k, source format named: Err, or Ok with exactly the fault-free output (an addition beyond the statement's keep-failing readers; it holds on the unchanged tree); (c) a writer that only accepts short pieces (1 byte; a drawn pattern) and never fails: Ok and exactly the fault-free bytes; unit 'flush' checks that Translator::flush reaches the writer and preserves its error. One evaluation = one injected fault; non-trivial = the fault lands after the first document or inside detection's look-ahead (reader), after byte 0 (writer), any short-write run; distinct by hash of (input, target, fault kind, k).".into()
+        "For generated valid streams (1..4 documents of each format, YAML also re-encoded as UTF-16/32; source named or detected; every target; a drawn read schedule): (a) a reader that fails - and keeps failing - once k bytes were delivered, for EVERY k in 0..=|input| (257 spread values above 2 KiB): the result must be Err whose text contains INJECTED-R-k (or the input's own fault-free error when that strikes first), never Ok or a panic, and the complete documents in the partial output (lines for JSON, '---'-introduced documents for YAML, whole values for MessagePack, all-or-nothing for TOML) must be, in order, a prefix of the fault-free documents; (b) a writer that accepts exactly k bytes and then fails - with an error, or by answering Ok(0) like a full fixed-size buffer -, for EVERY k below the fault-free output length (256 spread values above 1 KiB), reader and slice input: Err, and the accepted bytes are a prefix of the fault-free output; (a') a reader of which ONE read fails with ErrorKind::Interrupted after k bytes and which then works again, for every k, source format named: Err, or Ok with exactly the fault-free output (an addition beyond the statement's keep-failing readers; it holds on the unchanged tree); (c) a writer that only accepts short pieces (1 byte; a drawn pattern) and never fails: Ok and exactly the fault-free bytes; unit 'flush' checks that Translator::flush reaches the writer and preserves its error. One evaluation = one injected fault; non-trivial = the fault lands after the first document or inside detection's look-ahead (reader), after byte 0 (writer), any short-write run; distinct by hash of (input, target, fault kind, k).".into()
     }
     fn assumptions(&self) -> Vec<String> {
         vec!["faulty readers keep failing once they failed (as the statement says)".into()]
@@ -309,7 +335,7 @@ impl Check for C12 {
         vec![Unit::gen("faults", 16, tier.pick(600, 6000)), Unit::enumerate("flush", 1)]
     }
     fn required_classes(&self, _tier: Tier) -> Vec<&'static str> {
-        vec!["fault:reader", "fault:reader_interrupted_once", "fault:reader_after_first_document", "fault:writer", "fault:short_writes", "fault:flush", "from:detect", "from:yaml", "from:json", "from:msgpack", "from:toml", "to:json", "to:yaml", "to:toml", "to:msgpack"]
+        vec!["fault:reader", "fault:reader_interrupted_once", "fault:reader_after_first_document", "fault:writer", "fault:writer_full", "fault:writer_slice_input", "fault:short_writes", "fault:flush", "from:detect", "from:yaml", "from:json", "from:msgpack", "from:toml", "to:json", "to:yaml", "to:toml", "to:msgpack"]
     }
     fn run_unit(&self, unit: &Unit, _shard: u32, seed: u64, _tier: Tier, rec: &mut Recorder) {
         match unit.name {
